@@ -9,3 +9,6 @@ open StarsimModel.C02
 #print axioms C02_jump_own
 #print axioms C02_start_step_jumps_own
 #print axioms C02_no_shared_defaults
+#print axioms C02_search_frame
+#print axioms C02_search_frame_static
+#print axioms C02_search_rename_counterexample
